@@ -45,7 +45,7 @@ CLAIMED = {
         "plain/benign baseline. For operations with callbacks a cancellation is injected at every callback invocation up to 64 (sampled beyond): that part is an "
         "enumeration of crash points, the rest is seeded sampling of caller programs.",
         "design_ref": "DESIGN.md section 3 (C20)",
-        "note": "Trusts the byte snapshots (sha256) and the finite catalogue in engines/catalogue.py as the meaning of 'public operations'; result equivalence to relative 1e-7; "
+        "note": "Trusts the byte snapshots (sha256) and the finite catalogue in engines/catalogue.py (about 40 entry groups incl. object lifecycles and operations that raise by design) as the meaning of 'public operations'; result equivalence to relative 1e-7; "
         "transient container mutations that are undone before return are allowed (probe only).",
         "quick_timeout": 1200,
         "thorough_timeout": 21600,
@@ -61,7 +61,9 @@ CLAIMED = {
         "observable; a wrong coefficient transformation trips the accuracy oracle as a by-product (it found HandyModRTransform.deriv3), but coverage of the ODE space is sampling.",
         "design_ref": "DESIGN.md section 3 (C15)",
         "note": "Accuracy envelope 2000*tol*scale calibrated on this tree (max seen 64*tol over 11 200 runs, 30x margin); increasing maps only; HyperbolicRTransform excluded (its validity depends on array length); "
-        "IVP solves run in the same histories with a loose envelope but the IVP clauses are not claimed as decided.",
+        "a 'did not converge' error is retried at a 100x / 10^4 x looser tolerance before it counts; IVP solves run in the same histories with a loose envelope but the IVP clauses are not claimed as decided. "
+        "Beyond the RNG seam the histories also share the caller's input objects between solves, solve through up to three admissible maps, steer object-address reuse, hold and re-evaluate returned solution callables, "
+        "use re-entrant callbacks and scale the equation by constants (all added after independently produced breakages were missed, DESIGN.md section 10).",
         "quick_timeout": 900,
         "thorough_timeout": 14400,
     },
@@ -75,8 +77,9 @@ CLAIMED = {
         "object (lazy harmonic basis) and a second one of the same size, one options dict reused by BVP and IVP calls, the lazily loaded Coulomb table hit by a store "
         "fault on first use and then retried - must not change a later potential. Densities (on-centre s- and p-type Gaussians inside the resolution envelope) are workload.",
         "design_ref": "DESIGN.md section 3 (C16)",
-        "note": "Bounds calibrated on this tree: accuracy 5e-3 (seen 7e-5), spread between draws max(1e-8, 0.05*tol) (seen 1e-3*tol), linearity 5*tol (seen 0.06*tol), exact core 1e-7 (seen 2e-11). "
-        "Off-centre and molecular densities are outside the sampled envelope (5-40 s per solve).",
+        "note": "Bounds calibrated on this tree: accuracy 5e-3 (2e-2 without the origin node; seen 7e-5 / 2.4e-3), spread between draws max(1e-8, 0.05*tol) (seen 1e-3*tol), linearity 5*tol (seen 0.06*tol), exact core 1e-7 (seen 5e-10). "
+        "Off-centre and multi-atom molecular densities are outside the sampled envelope (5-40 s per solve); one-atom molecular grids, solver options (boundary / include_origin / remove_large_pts), p-type components along x/y/z/generic "
+        "directions, caller-edited parameter arrays and held potential functions are inside it.",
         "quick_timeout": 1200,
         "thorough_timeout": 21600,
     },
